@@ -1,0 +1,70 @@
+'''
+Created on Oct 1, 2026
+
+'''
+from vsc.model.bin_expr_type import BinExprType
+from vsc.model.expr_bin_model import ExprBinModel
+from vsc.model.expr_fieldref_model import ExprFieldRefModel
+from vsc.model.expr_literal_model import ExprLiteralModel
+
+
+class VariableBoundCtxExpr(object):
+    """
+    Value of a non-random expression as an operand of a comparison
+    that the solver evaluates with 'width' bits, signed only if both
+    operands are signed. Expression values are computed with unbounded
+    integers, which matches the solver only as long as no intermediate
+    result leaves the range of the comparison and no negative value 
+    is taken as unsigned. val() returns None when this cannot be 
+    established, in which case the expression must not bound anything.
+    """
+    
+    ARITH_OPS = (BinExprType.Add, BinExprType.Sub, BinExprType.Mul,
+                 BinExprType.And, BinExprType.Or, BinExprType.Xor)
+    
+    def __init__(self, e, width, signed, offset=0):
+        self.e = e
+        self.width = width
+        self.signed = signed
+        self.offset = offset
+        
+    def val(self):
+        v = self._val(self.e, self.signed)
+        if v is None:
+            return None
+        return v + self.offset
+        
+    def _val(self, e, signed):
+        if isinstance(e, (ExprLiteralModel, ExprFieldRefModel)):
+            v = int(e.val())
+            e_signed = signed
+        elif isinstance(e, ExprBinModel) and e.op in VariableBoundCtxExpr.ARITH_OPS:
+            e_signed = e.is_signed()
+            lhs = self._val(e.lhs, e_signed)
+            rhs = self._val(e.rhs, e_signed)
+            if lhs is None or rhs is None:
+                return None
+            if e.op == BinExprType.Add:
+                v = lhs + rhs
+            elif e.op == BinExprType.Sub:
+                v = lhs - rhs
+            elif e.op == BinExprType.Mul:
+                v = lhs * rhs
+            elif e.op == BinExprType.And:
+                v = lhs & rhs
+            elif e.op == BinExprType.Or:
+                v = lhs | rhs
+            else:
+                v = lhs ^ rhs
+        else:
+            return None
+        
+        if v < 0 and not (signed and e_signed):
+            # A negative value taken as unsigned 
+            return None
+        if e_signed:
+            if v < -(1 << (self.width-1)) or v >= (1 << (self.width-1)):
+                return None
+        elif v >= (1 << self.width):
+            return None
+        return v
